@@ -271,6 +271,7 @@ func (u *userWorld) nextBlock(r *Rng) {
 // directedF16: pool with 1e18 units; a second provider with 0 units; a rewards bucket; the creator
 // becomes ineligible by adding liquidity; the epoch ends.
 func directedF16(out *Out) {
+	out.Emit("reset", "ok", "reset", false)
 	r := NewRng(16)
 	w := NewWorld([]string{"cusdc"}, []int64{6}, 3)
 	u := &userWorld{World: w, now: t0}
@@ -314,6 +315,7 @@ func init() {
 		directedF16(out)
 		for sc := 0; sc < n; sc++ {
 			r := NewRng(rng.U64())
+			out.Emit("reset", "ok", "reset", false)
 			u := newUserWorld(r)
 			u.envelopeConfig(r)
 			blocks := 12 + r.Intn(20)
